@@ -285,6 +285,8 @@ def main(argv=None):
         "attached": m["attached"],
         **repo_state(),
     }
+    coverage["anchored_mechanisms_not_reached"] = [
+        a["mechanism"] for a in coverage["anchor_lines_hit"] if a.get("lines_hit", 0) == 0]
     if meta.get("exhaustive_part"):
         coverage["exhaustive_part"] = meta["exhaustive_part"]
     evidence = {
@@ -322,6 +324,8 @@ def main(argv=None):
         for r in inconclusive:
             print(f"INCONCLUSIVE property={prop} {r[:600]}")
         return 2
+    for mech in coverage["anchored_mechanisms_not_reached"]:
+        print(f"NOTE property={prop} anchored mechanism not executed by this run: {mech}")
     print(f"HELD property={prop} on everything explored")
     return 0
 
